@@ -133,6 +133,16 @@ CLAIMED.update({
   design="DESIGN.md §4.C11"),
 })
 
+CLAIMED.update({
+ "C20": dict(
+  text="Deductive proof, on the real Module.go code, that the universal constructors Association, List, Stack and Array agree with the class constructors and with the parser for their documented data forms "
+       "(none / size or capacity / Go array / CDCN source): the postcondition of each form is stated with the same specification functions as the class-level constructor (view, capacity, akey/aval, parsedval(source) = what ParseSource returns), "
+       "argument type switches are modelled with symbolic dynamic-type tags so that identical key and value types (tid.K == tid.V) are a possible world. Four genuine defects were found this way and repaired.",
+  note="NOT under contract yet: Queue, Set, Catalog and Map constructors, the sequence (Sequential[V]) and collator forms, and a notation passed as an extra argument in either position (contracts require at most one argument). "
+       "Assumed: reflect.Type.Implements agrees with the type assertion; ParseSource is a function of the source text (parsedval); class accessors return non-nil classes.",
+  design="DESIGN.md §4.C20"),
+})
+
 NOT_YET = {}
 
 TECH = "contract-based deductive verification: weakest-precondition style VCs generated from go/ssa of /repo, contracts in //go:build verif comment files, discharged by z3 5.1 / z3 4.8 / cvc5"
